@@ -129,11 +129,12 @@ class Check:
     v = dict(sig=sig, message=message)
     seen = {x['sig'] for x in self.violations}
     if sig not in seen and len(seen) < self.max_violation_files:
-      os.makedirs(os.path.join(VERIF, 'replays'), exist_ok=True)
+      rdir = os.environ.get('VERIF_REPLAY_DIR') or os.path.join(VERIF, 'replays')
+      os.makedirs(rdir, exist_ok=True)
       body = dict(property=self.prop, tier=self.tier, seed=self.seed, sig=sig,
                   message=message, **_jsonable(replay))
       h = hashlib.sha1(json.dumps(body, sort_keys=True).encode()).hexdigest()[:10]
-      path = os.path.join(VERIF, 'replays', f'{self.prop}_{h}.json')
+      path = os.path.join(rdir, f'{self.prop}_{h}.json')
       with open(path, 'w') as f:
         json.dump(body, f, indent=1, sort_keys=True)
       v['replay'] = path
@@ -163,8 +164,9 @@ class Check:
               wall_s=round(time.time() - self.t0, 2), violations=len(self.violations))
     if self.notes:
       ev['notes'] = self.notes
-    os.makedirs(os.path.join(VERIF, 'evidence'), exist_ok=True)
-    with open(os.path.join(VERIF, 'evidence', f'{self.prop}.json'), 'w') as f:
+    edir = os.environ.get('VERIF_EVIDENCE_DIR') or os.path.join(VERIF, 'evidence')
+    os.makedirs(edir, exist_ok=True)
+    with open(os.path.join(edir, f'{self.prop}.json'), 'w') as f:
       json.dump(ev, f, indent=1, sort_keys=True)
 
   def finish(self):
